@@ -29,17 +29,19 @@ from harness.common.shrink import ddmin
 from harness.props import c04_fullproc
 
 PROP = "C04"
-DRIVER_MODULES = ["PsutilModel.Model.C04Gen", "PsutilModel.Model.C04Fine", "PsutilModel.Spec.C04"]
+DRIVER_MODULES = ["PsutilModel.Model.C04Gen", "PsutilModel.Model.C04Fine", "PsutilModel.Spec.C04",
+                  "PsutilModel.Model.C04Status", "PsutilModel.Spec.C04Status"]
 NEEDS_EXT = True
 TRUSTED = [
     "C04 world: the kernel is a process table seen through listdir(/proc), kill(pid,0), the Tgid line of /proc/<pid>/status and the start time in /proc/<pid>/stat; table changes happen between psutil's calls and (for process_iter) right after the listing — not inside a single file read",
     "C04 model: Process objects are numbered references (pid, start time seen by _init, _gone, _pid_reused); as_dict() is modelled by the kind of each requested name (no access / reads /proc/<pid>/… / starts with _raise_if_pid_reused) in the iteration order of set(attrs), which the harness reads off CPython; attrs=[] (all names) is modelled and exercised on the complete fake /proc/<pid> of harness/props/c04_fullproc.py (families attrs_all and attrs_all_ad_value); process_iter is called in every form of its signature (no argument, attrs / ad_value positional and by keyword)",
+    "C04 status text: int() on the Tgid field is modelled for plain decimal digits (what the kernel prints); a sign, underscores or non-ASCII digits, which Python's int() would also accept, are not generated; the fake status files are rendered by the harness and cross-checked byte for byte against the specification's rendering (driver op status_scan)",
     "C04 harness: thread ids are emulated as directories of the fake root that the wrapped os.listdir hides; the wrapped os.kill converts its argument with the real pid_t converter (os.getsid) before consulting the simulated table (and lets table changes happen right after the probe for _pslinux.pid_exists called on its own)",
     "C04 attrs=[]: the complete fake /proc/<pid> (harness/props/c04_fullproc.py: stat, status, statm, cmdline, environ, io, smaps, smaps_rollup, fd/, fdinfo/, task/, cwd, exe + /proc/meminfo, /proc/net/*) is rendered from proc(5); nice / ionice / cpu_affinity (system calls on the PID) are answered from the simulated table; EACCES is injected at _pslinux.open_binary/open_text, os.readlink, os.listdir (the harness runs as root); only processes that have a status file are used there",
     "C04 two threads (harness/props/c04_preempt.py): sys.settrace baton scheduler; scheduling points = every line of process_iter (+ inner add/remove), of the cache_clear lambda and of Process.is_running, every bytecode of those that loads/stores _pmap or _pids_reused and the bytecode after it, entry and _get_ident line of Process._init, item boundaries of the consumer loop; all schedules with <= 2 pre-emptions (thorough; with kernel events on a 1/6 sub-lattice) and item-boundary schedules with 3 pre-emptions; every-bytecode granularity is sampled only; more than two pre-emptions / more than two threads are not explored (the statement-granularity theorems C04_fine_* cover them thread-locally); the values a real generator frame reads (its locals pmap / a / pid / ls at line events, NoSuchProcess exception events, yields at return events, pmap at the `_pmap = pmap` line) are read off the frame by the tracer and fed to the Lean thread model",
 ]
 MANIFEST = {
-    "level_text": "Machine-checked Lean 4 proofs over a model of pids()/pid_exists()/process_iter()/cache_clear()/is_running()'s cache side effect. For every table: pids() is the strictly ascending list of exactly the listed PIDs (C04_pids_sorted_exact, C04_pids_unique; byte level: C04_listing_exact); pid_exists(n) is a bool, True exactly for listed PIDs, for every int n and every well-formed table with threads, foreign processes and broken status files (C04_pidExists_iff). For EVERY history, overlapping generators and both prologue orders included: each generator yields strictly ascending PIDs without duplicates, all from the listing it took, and next() can only yield/stop/raise ValueError (invalid attrs)/IndexError (empty table) (C04_iter_ascending, C04_overlap_safety, C04_yield_was_listed); each next() visits the remaining listed PIDs in order and skips a PID only if it vanished (C04_iter_each_listed_once_repaired: full strength only for a configuration with the REPAIRED prologue order — not the shipped code; C04_iter_each_listed_once_partial for the code as it is when no PID is flagged at the start of the iteration; C04_iter_each_listed_Full_fails_shipped / C04_iteration_complete_Full_fails_shipped: the full clause is REFUTED for the shipped order on the L19 state); info keys are exactly the requested names (C04_info_keys). One WHOLE iteration as one sentence, for any continuation of the history (other generators advancing, table changes inside and between calls, cache_clear, is_running): the PIDs a generator yields are a subsequence of the ascending listing it took and every PID of that listing is yielded, or was absent from the table at one of its next() calls, or is still to be visited; once the generator is exhausted, yielded or vanished (C04_iteration_complete_repaired for the repaired prologue order only, C04_iteration_complete_partial for the code as it is when no PID is flagged at the start, C04_iteration_drained). 'Recycled -> replaced by a fresh object' for the SHIPPED order in its two-iteration form, from any reachable state, kernel events anywhere, any attrs (C04_flagged_iteration_skips: the iteration that starts while a cached PID is flagged never yields it and publishes a _pmap without it — the known finding C04-flagged-pid-skipped characterised in general; C04_uncached_iteration_fresh: an iteration that finds a listed PID uncached yields for it only a reference no object had before, an object of that PID; C04_recycled_replaced_two_iterations: both composed; C04_refines_sequential_from: from any idle reachable state — e.g. the one after the dropping iteration — the code equals the specification machine, so the fresh object is kept). The LIFETIME of a recycled-flag (seeded round 5): every operation other than the first next() of a generator — cache_clear(), next()/close() of generators in flight that republish their private table, is_running(), pids(), pid_exists() — keeps every flagged PID flagged (C04_flag_kept_by_every_other_op, C04_cache_clear_keeps_flags); once is_running() has found an object's PID recycled the PID stays flagged along ANY continuation in which no iteration starts (C04_found_recycled_stays_flagged), the iteration that starts next never yields that stale object, either prologue order, any attrs (C04_found_recycled_never_yielded_again), and for the shipped order iteration n drops the entry and n+1 yields a fresh object (C04_found_recycled_replaced); C04_clear_dropping_flags_counterexample shows what a cache_clear() that also emptied _pids_reused would do (stale object yielded forever); the frame is tied to the source by the obligations cfg_flag_set_ops / cfg_pmap_ops on the facts listing EVERY use of the module globals _pids_reused / _pmap in the package. Object <-> PID: in every reachable state, any configuration, the yielded reference is a live object whose pid is the yielded PID and no reference in _pmap / a suspended generator's map / to-do list dangles or is filed under another PID (C04_yield_object_pid, C04_object_pid_stable; invariant ObjInv). For every SEQUENTIAL history the whole output trace of the model — PIDs, object identities, info keys — equals that of a shared-cache specification machine (C04_refines_sequential, by an abstraction function), whose cache keeps an entry iff its PID is still listed and not flagged, yields the cached object else a fresh one, and is emptied by cache_clear (C04_start_cache, C04_spec_visit, C04_isRunning_flags, C04_cache_clear). The platform functions are covered branch by branch: _psposix.pid_exists (PID 0, ESRCH, EPERM, ok, OverflowError: C04_posix_pidExists_branches), _pslinux.pid_exists called on its own with ANY table changes between the kill probe and the status read (C04_linux_pidExists_two_instants: the answer is right for the table at the probe or at the read; C04_linux_pidExists_iff without changes; C04_platform_eq ties them to the front-end model); bool arguments are ints (C04_pidExists_bool), floats are pinned as outside the statement (C04_pidExists_float: TypeError for positive floats). as_dict's ad_value substitution: keys exactly the requested names, ad_value exactly where the getter raises AccessDenied/ZombieProcess (C04_asdict_ad_value). Two threads in the prologue's drain loop: C04_drain_race_counterexample (KeyError with the unguarded pop of the code as found) and C04_drain_guarded_safe (no KeyError, no flag lost, every schedule, for the guarded pop); the code now has the guarded pop (fix 4d302c5), pinned by the obligation cfg_pop_guarded. One thread at STATEMENT granularity against an arbitrary environment (Model/C04Fine.lean: the thread as a function of what it reads — _pmap at the copy, the table at the listing, the PIDs _pids_reused.pop() hands it, the answer at each Process(pid) / as_dict — so for every schedule of any number of threads and table changes at any point, also between add(pid) and as_dict): its prologue computes what the atomic prologue computes on the hybrid snapshot (C04_fine_prologue_atomic); yielded PIDs strictly ascending and from its listing, each yielded object is the one _pmap held for that PID at the copy (and not handed to it as recycled) or its own new one, only IndexError/KeyError(unguarded pop)/ValueError can escape (C04_fine_safety, C04_fine_no_keyerror for the code as it is); what it stores into _pmap maps PIDs of its listing to the copied or its own object for that very PID (C04_fine_publish: the guarantee every reader relies on); run to the end it yields every listed PID unless the world answered NoSuchProcess there (C04_fine_complete, for the repaired order or when it was handed no flagged PID). Proved counterexamples (replayed on the real code): L4 OverflowError for the pre-fix pid_exists, L19 flagged PID skipped, overlapping generators, cache_clear while suspended, ppid reuse check (these last four are the known findings C04-flagged-pid-skipped, C04-overlap-identity, C04-clear-while-suspended, C04-reuse-check-skips-pid), and the _pids_reused.pop() race of two threads for the unguarded pop (fixed in /repo by 4d302c5). Tied to the code by translator facts feeding proof obligations — cfg_good (range guard), cfg_reuse_attrs (the only as_dict name whose getter reaches _raise_if_pid_reused() is ppid: a getter gaining the call breaks the build, and the harness keeps the region of known finding C04-reuse-check-skips-pid pinned to ppid so the new behaviour is a failing input), cfg_no_access_attrs (exactly pid and create_time are answered from the object; C04_refines_sequential_literal states the refinement against the literal list), cfg_names_valid, cfg_pop_guarded; C04_noReuse_iff spells out the NoReuse hypothesis for the code as it is (attrs=None or a non-empty list without ppid) — and the prologue order, which selects the model the driver runs, and by a differential run of the real functions over a fake procfs incl. exhaustive short histories, the complete pid_exists table (front-end, both platform functions, windows between probe and read, bool/float arguments), attrs=[] (all names) on a complete fake /proc/<pid> with EACCES injection, and a deterministic bounded-pre-emption exploration of two threads using process_iter()/cache_clear()/is_running() at once (oracle from the statement; item-boundary schedules are also run through the Lean model, drain-loop steps through the Lean drain model, and EVERY generator run of every explored schedule — line, shared-bytecode and every-bytecode granularity — through the statement-granularity thread model fed with the values the real thread read: to-do list, yields and the published map must be equal); the whole-iteration sentence and the sentence 'an object whose PID is_running() found recycled is never yielded by an iteration that starts later' are also judged on the implementation's own outputs of every history (model-independent oracles; families inflight_flag / exhaustive_inflight span recycling x generator in flight x cache_clear()); process_iter is called in every spelling of its signature (no argument, attrs / ad_value positional, by keyword, defaults).",
+    "level_text": "Machine-checked Lean 4 proofs over a model of pids()/pid_exists()/process_iter()/cache_clear()/is_running()'s cache side effect. For every table: pids() is the strictly ascending list of exactly the listed PIDs (C04_pids_sorted_exact, C04_pids_unique; byte level: C04_listing_exact); pid_exists(n) is a bool, True exactly for listed PIDs, for every int n and every well-formed table with threads, foreign processes and broken status files (C04_pidExists_iff). For EVERY history, overlapping generators and both prologue orders included: each generator yields strictly ascending PIDs without duplicates, all from the listing it took, and next() can only yield/stop/raise ValueError (invalid attrs)/IndexError (empty table) (C04_iter_ascending, C04_overlap_safety, C04_yield_was_listed); each next() visits the remaining listed PIDs in order and skips a PID only if it vanished (C04_iter_each_listed_once_repaired: full strength only for a configuration with the REPAIRED prologue order — not the shipped code; C04_iter_each_listed_once_partial for the code as it is when no PID is flagged at the start of the iteration; C04_iter_each_listed_Full_fails_shipped / C04_iteration_complete_Full_fails_shipped: the full clause is REFUTED for the shipped order on the L19 state); info keys are exactly the requested names (C04_info_keys). One WHOLE iteration as one sentence, for any continuation of the history (other generators advancing, table changes inside and between calls, cache_clear, is_running): the PIDs a generator yields are a subsequence of the ascending listing it took and every PID of that listing is yielded, or was absent from the table at one of its next() calls, or is still to be visited; once the generator is exhausted, yielded or vanished (C04_iteration_complete_repaired for the repaired prologue order only, C04_iteration_complete_partial for the code as it is when no PID is flagged at the start, C04_iteration_drained). 'Recycled -> replaced by a fresh object' for the SHIPPED order in its two-iteration form, from any reachable state, kernel events anywhere, any attrs (C04_flagged_iteration_skips: the iteration that starts while a cached PID is flagged never yields it and publishes a _pmap without it — the known finding C04-flagged-pid-skipped characterised in general; C04_uncached_iteration_fresh: an iteration that finds a listed PID uncached yields for it only a reference no object had before, an object of that PID; C04_recycled_replaced_two_iterations: both composed; C04_refines_sequential_from: from any idle reachable state — e.g. the one after the dropping iteration — the code equals the specification machine, so the fresh object is kept). The LIFETIME of a recycled-flag (seeded round 5): every operation other than the first next() of a generator — cache_clear(), next()/close() of generators in flight that republish their private table, is_running(), pids(), pid_exists() — keeps every flagged PID flagged (C04_flag_kept_by_every_other_op, C04_cache_clear_keeps_flags); once is_running() has found an object's PID recycled the PID stays flagged along ANY continuation in which no iteration starts (C04_found_recycled_stays_flagged), the iteration that starts next never yields that stale object, either prologue order, any attrs (C04_found_recycled_never_yielded_again), and for the shipped order iteration n drops the entry and n+1 yields a fresh object (C04_found_recycled_replaced); C04_clear_dropping_flags_counterexample shows what a cache_clear() that also emptied _pids_reused would do (stale object yielded forever); the frame is tied to the source by the obligations cfg_flag_set_ops / cfg_pmap_ops on the facts listing EVERY use of the module globals _pids_reused / _pmap in the package. Object <-> PID: in every reachable state, any configuration, the yielded reference is a live object whose pid is the yielded PID and no reference in _pmap / a suspended generator's map / to-do list dangles or is filed under another PID (C04_yield_object_pid, C04_object_pid_stable; invariant ObjInv). For every SEQUENTIAL history the whole output trace of the model — PIDs, object identities, info keys — equals that of a shared-cache specification machine (C04_refines_sequential, by an abstraction function), whose cache keeps an entry iff its PID is still listed and not flagged, yields the cached object else a fresh one, and is emptied by cache_clear (C04_start_cache, C04_spec_visit, C04_isRunning_flags, C04_cache_clear). The platform functions are covered branch by branch: _psposix.pid_exists (PID 0, ESRCH, EPERM, ok, OverflowError: C04_posix_pidExists_branches), _pslinux.pid_exists called on its own with ANY table changes between the kill probe and the status read (C04_linux_pidExists_two_instants: the answer is right for the table at the probe or at the read; C04_linux_pidExists_iff without changes; C04_platform_eq ties them to the front-end model); bool arguments are ints (C04_pidExists_bool), floats are pinned as outside the statement (C04_pidExists_float: TypeError for positive floats). as_dict's ad_value substitution: keys exactly the requested names, ad_value exactly where the getter raises AccessDenied/ZombieProcess (C04_asdict_ad_value). Two threads in the prologue's drain loop: C04_drain_race_counterexample (KeyError with the unguarded pop of the code as found) and C04_drain_guarded_safe (no KeyError, no flag lost, every schedule, for the guarded pop); the code now has the guarded pop (fix 4d302c5), pinned by the obligation cfg_pop_guarded. One thread at STATEMENT granularity against an arbitrary environment (Model/C04Fine.lean: the thread as a function of what it reads — _pmap at the copy, the table at the listing, the PIDs _pids_reused.pop() hands it, the answer at each Process(pid) / as_dict — so for every schedule of any number of threads and table changes at any point, also between add(pid) and as_dict): its prologue computes what the atomic prologue computes on the hybrid snapshot (C04_fine_prologue_atomic); yielded PIDs strictly ascending and from its listing, each yielded object is the one _pmap held for that PID at the copy (and not handed to it as recycled) or its own new one, only IndexError/KeyError(unguarded pop)/ValueError can escape (C04_fine_safety, C04_fine_no_keyerror for the code as it is); what it stores into _pmap maps PIDs of its listing to the copied or its own object for that very PID (C04_fine_publish: the guarantee every reader relies on); run to the end it yields every listed PID unless the world answered NoSuchProcess there (C04_fine_complete, for the repaired order or when it was handed no flagged PID). Proved counterexamples (replayed on the real code): L4 OverflowError for the pre-fix pid_exists, L19 flagged PID skipped, overlapping generators, cache_clear while suspended, ppid reuse check (these last four are the known findings C04-flagged-pid-skipped, C04-overlap-identity, C04-clear-while-suspended, C04-reuse-check-skips-pid), and the _pids_reused.pop() race of two threads for the unguarded pop (fixed in /repo by 4d302c5). Tied to the code by translator facts feeding proof obligations — cfg_good (range guard), cfg_reuse_attrs (the only as_dict name whose getter reaches _raise_if_pid_reused() is ppid: a getter gaining the call breaks the build, and the harness keeps the region of known finding C04-reuse-check-skips-pid pinned to ppid so the new behaviour is a failing input), cfg_no_access_attrs (exactly pid and create_time are answered from the object; C04_refines_sequential_literal states the refinement against the literal list), cfg_names_valid, cfg_pop_guarded; C04_noReuse_iff spells out the NoReuse hypothesis for the code as it is (attrs=None or a non-empty list without ppid) — and the prologue order, which selects the model the driver runs, and by a differential run of the real functions over a fake procfs incl. exhaustive short histories, the complete pid_exists table (front-end, both platform functions, windows between probe and read, bool/float arguments), attrs=[] (all names) on a complete fake /proc/<pid> with EACCES injection, and a deterministic bounded-pre-emption exploration of two threads using process_iter()/cache_clear()/is_running() at once (oracle from the statement; item-boundary schedules are also run through the Lean model, drain-loop steps through the Lean drain model, and EVERY generator run of every explored schedule — line, shared-bytecode and every-bytecode granularity — through the statement-granularity thread model fed with the values the real thread read: to-do list, yields and the published map must be equal); the whole-iteration sentence and the sentence 'an object whose PID is_running() found recycled is never yielded by an iteration that starts later' are also judged on the implementation's own outputs of every history (model-independent oracles; families inflight_flag / exhaustive_inflight span recycling x generator in flight x cache_clear()); process_iter is called in every spelling of its signature (no argument, attrs / ad_value positional, by keyword, defaults). The TEXT of /proc/<n>/status (seeded round 5, C04-5): _pslinux.pid_exists is also transcribed at byte level (Model/C04Status.lean: the lines of the file, the first one starting with Tgid:, its second field through int(), == with the argument; statement list pinned by the obligation cfg_tgid_scan) against the kernel's documented format (Spec/C04Status.lean: any own-key lines before the Tgid line, anything after it): for ANY id asked about and ANY thread-group id printed the scan answers whether the two NUMBERS are equal (C04_tgid_field_compared_as_number), the byte-level function equals the abstract one the other theorems speak about (C04_linux_pidExists_text_refines, C04_linux_pidExists_text_other), hence True exactly for listed PIDs and False for every thread id whatever its decimal looks like next to its process's (C04_linux_pidExists_text_iff, C04_thread_id_text_false); C04_tgid_prefix_match_counterexample shows what a textual prefix comparison would answer for thread 123 of process 1234. Correspondence: families tid_digits / status_text (ids related as decimal text: prefix, suffix, infix, extension, permutation; status files in ten layouts + random lines + texts outside the kernel's format), an exhaustive sweep of every ordered pair (thread-group id, thread id) over 15 such numbers, the byte-level model fed with the very bytes of the fake file.",
     "level_note": "Partial: two threads: theorems cover the generator-level interleavings (Op.next of several generators), the drain loop, and — thread-locally, for every schedule — one thread at statement granularity against an arbitrary environment (safety, identity of the yielded objects w.r.t. the copy, the published map, completeness); the GLOBAL identity statement under two threads is not proved (it is false: known finding C04-overlap-identity) and the composition of several fine-grained threads into one trace is explored (<= 2 pre-emptions at line/shared-bytecode granularity), not proved. Identity is proved for sequential histories only (overlaps, cache_clear while suspended, ppid+recycled PID, flagged PID at iteration start are the four known findings, with proved counterexamples; the _pids_reused.pop() race found in the same round is fixed by 4d302c5); completeness at full strength is proved for the repaired prologue order only and refuted for the shipped one, for which the partial theorems (nothing flagged at the start) and the two-iteration theorem hold; `zombie` is carried by the kernel model but read only by asDictVals (per-getter outcomes fed by the harness), not by the history machine; every OSError of the status read is one outcome of the model (the harness injects ENOENT, EACCES and ESRCH). Trusted: Lean kernel + {propext, Classical.choice, Quot.sound}; the translator; the correspondence harness; atomicity (table changes between psutil's OS accesses and right after the listing); CPython generator finalisation and set iteration order; as_dict modelled by attribute kind.",
     "technique": "Lean 4 generator state machine + refinement to a shared-cache specification by an abstraction function, invariants by induction over histories, a statement-granularity thread model quantified over everything the thread reads (rely/guarantee), translator-fed proof obligation, differential correspondence over a fake procfs with exhaustive short histories, bounded-pre-emption schedule exploration of real threads (sys.settrace baton scheduler) tied to the Lean model at item granularity",
     "design_ref": "DESIGN.md §5 C04",
@@ -307,6 +309,65 @@ def _shared_state_ops(snap, tree, name):
     return sorted(out)
 
 
+def _stmt_list(fn):
+    """every statement of a function (docstring dropped, comments are not in the AST), flattened: `<depth>:<head or
+    simple statement>` as `ast.unparse` prints it. Total: any Python function has such a list."""
+    out = []
+
+    def walk(body, d):
+        for st in body:
+            if isinstance(st, ast.Expr) and isinstance(st.value, ast.Constant) and isinstance(st.value.value, str):
+                continue
+            if isinstance(st, ast.If):
+                out.append("%d:if %s:" % (d, ast.unparse(st.test)))
+                walk(st.body, d + 1)
+                if st.orelse:
+                    out.append("%d:else:" % d)
+                    walk(st.orelse, d + 1)
+            elif isinstance(st, (ast.For, ast.AsyncFor)):
+                out.append("%d:for %s in %s:" % (d, ast.unparse(st.target), ast.unparse(st.iter)))
+                walk(st.body, d + 1)
+                if st.orelse:
+                    out.append("%d:else:" % d)
+                    walk(st.orelse, d + 1)
+            elif isinstance(st, ast.While):
+                out.append("%d:while %s:" % (d, ast.unparse(st.test)))
+                walk(st.body, d + 1)
+                if st.orelse:
+                    out.append("%d:else:" % d)
+                    walk(st.orelse, d + 1)
+            elif isinstance(st, (ast.With, ast.AsyncWith)):
+                out.append("%d:with %s:" % (d, ", ".join(ast.unparse(i) for i in st.items)))
+                walk(st.body, d + 1)
+            elif isinstance(st, ast.Try) or st.__class__.__name__ == "TryStar":
+                out.append("%d:try:" % d)
+                walk(st.body, d + 1)
+                for h in st.handlers:
+                    out.append("%d:except%s%s:" % (d, "" if h.type is None else " " + ast.unparse(h.type),
+                                                   "" if not h.name else " as " + h.name))
+                    walk(h.body, d + 1)
+                if st.orelse:
+                    out.append("%d:else:" % d)
+                    walk(st.orelse, d + 1)
+                if st.finalbody:
+                    out.append("%d:finally:" % d)
+                    walk(st.finalbody, d + 1)
+            elif isinstance(st, (ast.FunctionDef, ast.AsyncFunctionDef, ast.ClassDef)):
+                out.append("%d:%s %s:" % (d, "class" if isinstance(st, ast.ClassDef) else "def", st.name))
+                walk(st.body, d + 1)
+            elif st.__class__.__name__ == "Match":
+                out.append("%d:%s" % (d, " ".join(ast.unparse(st).split())))
+            else:
+                out.append("%d:%s" % (d, " ".join(ast.unparse(st).split())))
+    walk(fn.body, 0)
+    return out
+
+
+def _tgid_scan(linux):
+    """the statements of `_pslinux.pid_exists` — the function Model/C04Status.lean transcribes"""
+    return _stmt_list(extract.find_def(linux, "pid_exists"))
+
+
 def facts(snap, F):
     init = extract.parse_module(snap, "__init__.py")
     posix = extract.parse_module(snap, "_psposix.py")
@@ -338,6 +399,9 @@ def facts(snap, F):
     F.try_add("pmapOps", "List String",
               lambda: extract.lean_list(_shared_state_ops(snap, init, "_pmap"), extract.lean_str),
               "every use of the module global _pmap in the package, as scope:operation")
+    F.try_add("tgidScan", "List String", lambda: extract.lean_list(_tgid_scan(linux), extract.lean_str),
+              "every statement of _pslinux.pid_exists (depth:statement; the scan of /proc/<pid>/status for the Tgid: line, "
+              "the field read with int() and compared with ==, the fallback to the listing)")
 
 
 # ------------------------------------------------------------------------------ simulated kernel (mirrors Kernel.apply)
@@ -411,6 +475,90 @@ def status_bytes(pid, tgid, with_tgid=True):
         lines.append("Tgid:\t%d" % tgid)
     lines += ["Ngid:\t0", "Pid:\t%d" % pid, "PPid:\t1", "Uid:\t0\t0\t0\t0", "Gid:\t0\t0\t0\t0", "Threads:\t1"]
     return ("\n".join(lines) + "\n").encode()
+
+
+# --- the TEXT of /proc/<id>/status as a dimension of the world (seeded round 5b). An event may carry "st": the name of a
+# layout in STATUS_SHAPES or {"b": [lines before the Tgid line], "a": [lines after it], "raw": optional replacement of the
+# Tgid line itself (then the text is NOT in the kernel's format: only _pslinux.pid_exists vs the byte-level model)}.
+# `{pid}` / `{tgid}` in a line are replaced by the id of the task / of its thread group. Lines are latin-1 text.
+_STD_B = ["Name:\tp", "Umask:\t0022", "State:\tS (sleeping)"]
+_STD_A = ["Ngid:\t0", "Pid:\t{pid}", "PPid:\t1", "Uid:\t0\t0\t0\t0", "Gid:\t0\t0\t0\t0", "Threads:\t1"]
+STATUS_SHAPES = {
+    "std": {"b": _STD_B, "a": _STD_A},
+    "min": {"b": [], "a": []},
+    "old": {"b": ["Name:\tp", "State:\tS (sleeping)"], "a": ["Pid:\t{pid}", "PPid:\t1", "TracerPid:\t0"]},     # no Umask: (< 4.7)
+    "real": {"b": ["Name:\tkworker/{pid}:1", "Umask:\t0022", "State:\tS (sleeping)"],
+             "a": ["Ngid:\t0", "Pid:\t{pid}", "PPid:\t1", "TracerPid:\t0", "Uid:\t1000\t1000\t1000\t1000",
+                   "Gid:\t1000\t1000\t1000\t1000", "FDSize:\t64", "Groups:\t4 24 27 1000 ", "NStgid:\t{tgid}\t7",
+                   "NSpid:\t{pid}\t9", "NSpgid:\t{tgid}\t7", "NSsid:\t{tgid}\t7", "Kthread:\t0", "VmPeak:\t    9120 kB",
+                   "VmSize:\t    9120 kB", "Threads:\t3", "SigQ:\t0/63304", "SigPnd:\t0000000000000000",
+                   "Cpus_allowed:\tff", "Cpus_allowed_list:\t0-7", "voluntary_ctxt_switches:\t{pid}",
+                   "nonvoluntary_ctxt_switches:\t{tgid}"]},
+    # the command name is whatever the process chose (the kernel escapes \n, \t … and the backslash only)
+    "name_digits": {"b": ["Name:\t{pid}", "Umask:\t0022", "State:\tR (running)"], "a": ["Ngid:\t0", "Pid:\t{pid}"]},
+    "name_tgid": {"b": ["Name:\tTgid:{pid}", "Umask:\t0022", "State:\tS (sleeping)"], "a": _STD_A},
+    "name_tgid_sp": {"b": ["Name:\tTgid: {pid}", "State:\tS (sleeping)"], "a": ["Ngid:\t0", "Pid:\t{pid}", "PPid:\t{tgid}"]},
+    "name_escaped": {"b": ["Name:\tx\\nTgid:\\t{pid}", "Umask:\t0022", "State:\tS (sleeping)"], "a": _STD_A},
+    "late": {"b": _STD_B + ["Kthread:\t0", "Cpus_allowed:\t{pid}", "Seccomp:\t0"], "a": ["Pid:\t{pid}"]},
+    "pid_first": {"b": ["Name:\tp", "Pid:\t{pid}", "PPid:\t{pid}"], "a": ["Ngid:\t{pid}"]},
+}
+SHAPE_NAMES = sorted(STATUS_SHAPES)
+
+
+def status_parts(st, pid, tgid):
+    """→ (lines before, Tgid line, lines after, in kernel format?) as bytes"""
+    d = STATUS_SHAPES[st] if isinstance(st, str) else st
+
+    def sub(x):
+        return x.replace("{pid}", str(pid)).replace("{tgid}", str(tgid)).encode("latin-1")
+    raw = d.get("raw")
+    line = ("Tgid:\t%d" % tgid).encode() if raw is None else sub(raw)
+    return [sub(x) for x in d["b"]], line, [sub(x) for x in d["a"]], raw is None
+
+
+def status_text(st, pid, tgid):
+    b, line, a, _ = status_parts(st, pid, tgid)
+    return b"".join(x + b"\n" for x in b + [line] + a)
+
+
+def shadow_status(k, n):
+    """the bytes of /proc/<n>/status in table `k` (a SimKernel), or None when it cannot be read; second value: in the
+    kernel's format?"""
+    p = k.find_proc(n)
+    if p is not None:
+        if p["status"] == "unreadable":
+            return None, True
+        if p.get("st") is not None and p["status"] == "ok":
+            return status_text(p["st"], n, n), status_parts(p["st"], n, n)[3]
+        return status_bytes(n, n, with_tgid=(p["status"] == "ok")), True
+    t = k.find_thr(n)
+    if t is not None:
+        if t.get("st") is not None:
+            return status_text(t["st"], n, t["tgid"]), status_parts(t["st"], n, t["tgid"])[3]
+        return status_bytes(n, t["tgid"]), True
+    return None, True
+
+
+def digit_relation(n, tgid):
+    """how the decimal of the id asked about relates to the decimal of its thread-group id"""
+    a, b = str(n), str(tgid)
+    if a == b:
+        return "equal"
+    if b.startswith(a):
+        return "prefix"
+    if b.endswith(a):
+        return "suffix"
+    if a in b:
+        return "infix"
+    if a.startswith(b):
+        return "extension"
+    if a.endswith(b):
+        return "tail_extension"
+    if sorted(a) == sorted(b):
+        return "permutation"
+    if len(a) == len(b):
+        return "same_length"
+    return "other"
 
 
 class Impl:
@@ -531,7 +679,8 @@ class Impl:
             if act == "mkproc":
                 files = {"stat": stat_bytes(x["pid"], x["start"], "Z" if x["zombie"] else "S")}
                 if x["status"] == "ok":
-                    files["status"] = status_bytes(x["pid"], x["pid"])
+                    files["status"] = (status_bytes(x["pid"], x["pid"]) if x.get("st") is None
+                                       else status_text(x["st"], x["pid"], x["pid"]))
                 elif x["status"] == "notgid":
                     files["status"] = status_bytes(x["pid"], x["pid"], with_tgid=False)
                 if self.full and x["status"] == "ok":
@@ -539,9 +688,17 @@ class Impl:
                 self._install(str(x["pid"]), files)
             elif act == "mkthr":
                 self._install(str(x["tid"]), {"stat": stat_bytes(x["tid"], x["start"], "S"),
-                                              "status": status_bytes(x["tid"], x["tgid"])})
+                                              "status": (status_bytes(x["tid"], x["tgid"]) if x.get("st") is None
+                                                         else status_text(x["st"], x["tid"], x["tgid"]))})
             elif act == "rm":
                 self._uninstall(str(x))
+
+    def _status_hex(self, n):
+        try:
+            with open(os.path.join(self.fp.path(str(n)), "status"), "rb") as f:
+                return f.read().hex()
+        except OSError:
+            return None
 
     def reset(self):
         for g in self.gens:
@@ -633,7 +790,17 @@ class Impl:
                         self.kev(ev)
             if r is not True and r is not False:
                 return {"kind": "notbool", "v": repr(r)}
+            if op.get("text") is not None and self._status_hex(op["n"]) != op["text"]:
+                return {"kind": "harness", "v": "status text of %d is not the one given to the model" % op["n"]}
             return {"kind": "bool", "v": r}
+        if o == "status_scan":
+            # the scan of ONE status text: the id is a task of the table that passes the probe, so the function's
+            # answer is the value of `tgid == pid` (the text has a well-formed Tgid line)
+            self.last_text = self._status_hex(op["n"])
+            r = self.linux.pid_exists(op["n"])
+            if r is not True and r is not False:
+                return {"kind": "notbool", "v": repr(r)}
+            return {"kind": "eq", "v": r}
         if o == "iter":
             g = call_process_iter(ps, op["attrs"], op.get("form"))
             self.gens.append(g)
@@ -735,6 +902,9 @@ def model_line(op):
     if op["op"] == "pid_exists_arg" and op["t"] == "float":
         x = float(op["x"])
         return {"op": "pid_exists_arg", "t": "float_neg" if x < 0 else "float_zero" if x == 0 else "float_other"}
+    if op["op"] == "status_scan":
+        b, _, a, _ = status_parts(op["st"], op["n"], op["tgid"])
+        return {"op": "status_scan", "n": op["n"], "tgid": op["tgid"], "before": [x.hex() for x in b], "after": [x.hex() for x in a]}
     return op
 
 
@@ -857,6 +1027,9 @@ def run_histories(ctx, impl, hists):
             if "bad" in m:
                 raise InfraError("driver rejected %r: %s" % (o, m))
             io = impl.do(o)
+            if o["op"] == "status_scan" and m.get("render") != getattr(impl, "last_text", None):
+                io = {"kind": "harness", "v": "the file written for %d is not the specification's rendering" % o["n"],
+                      "file": getattr(impl, "last_text", None), "render": m.get("render")}
             rows.append((o, io, cm.out(m["model"]), cs.out(m["spec"])))
             flags.append(bool(m.get("flagged_start")))
         rows.flags = flags
@@ -1465,6 +1638,8 @@ def gen_history(rng, family):
                             "x": repr(rng.choice([-1.5, -0.0, 0.0, 0.5, 1.0, 5.0, 2.0**31, 1e30, float("inf"),
                                                   float("-inf"), float("nan")]))})
         b.h.append({"op": "pids"})
+    elif family in ("tid_digits", "status_text"):
+        gen_tid_digits(b, rng, texts=(family == "status_text"))
     else:  # mixed
         b.populate(rng.randrange(0, 4))
         for _ in range(rng.randrange(6, 30 if family == "long" else 16)):
@@ -1490,8 +1665,150 @@ def gen_history(rng, family):
     return b.h
 
 
+def related_ids(rng, n):
+    """numbers whose decimal is related to that of `n`: proper prefixes, suffixes, infixes, one-digit extensions at either
+    end, neighbours, the reversal, a zero inserted / dropped"""
+    s = str(n)
+    out = set()
+    for i in range(1, len(s)):
+        out.add(int(s[:i]))
+        if s[i] != "0":
+            out.add(int(s[i:]))
+        for j in range(i + 1, len(s)):
+            if s[i] != "0":
+                out.add(int(s[i:j]))
+    for d in rng.sample(range(10), 3):
+        out.add(n * 10 + d)
+        if d:
+            out.add(int(str(d) + s))
+    out |= {n + 1, n - 1, int(s[::-1]), int(s[0] + "0" + s[1:]), int(s.replace("0", "") or "0")}
+    return sorted(x for x in out if 0 < x <= PID_T_MAX and x != n)
+
+
+def random_status_lines(rng, pid_like):
+    """lines a status file may hold around the Tgid line: own key, a tab, any value without a line feed"""
+    keys = ["Name", "Umask", "State", "Ngid", "Pid", "PPid", "TracerPid", "NStgid", "NSpid", "Threads", "Kthread", "xTgid",
+            "Tgi", "tgid", "TGID", " Tgid", "Tgid_", "Pid Tgid"]
+    vals = ["{pid}", "{tgid}", "0", "Tgid:\t{pid}", "Tgid:{tgid}", "\tTgid:\t{pid}", "S (sleeping)", "{pid}\t{tgid}", "",
+            str(pid_like), "Tgid:\t%d" % pid_like]
+    out = []
+    for _ in range(rng.randrange(0, 5)):
+        k = rng.choice(keys)
+        if k.startswith("Tgid:"):
+            continue
+        out.append("%s:\t%s" % (k, rng.choice(vals)))
+    return out
+
+
+def gen_tid_digits(b, rng, texts):
+    """seeded round 5b: processes and threads whose ids are related AS DECIMAL TEXT (a thread id that is a proper prefix /
+    suffix / infix / extension of its process's id, of another process's id; absent numbers with the same relations),
+    every id asked about through the front-end and the platform functions; the status files in every layout of
+    STATUS_SHAPES / random lines around the Tgid line (`texts`: also texts that are not in the kernel's format)."""
+    def shape():
+        r = rng.random()
+        if r < 0.25:
+            return None
+        if r < 0.8:
+            return rng.choice(SHAPE_NAMES)
+        return {"b": [x for x in random_status_lines(rng, rng.randrange(1, 99999)) if not x.startswith("Tgid:")],
+                "a": random_status_lines(rng, rng.randrange(1, 99999))}
+    digits = rng.choice([2, 3, 3, 4, 4, 5, 5, 6, 7, 9, 10])
+    pool = set()
+    procs = []
+    for _ in range(rng.randrange(1, 4)):
+        lo, hi = 10 ** (digits - 1), min(10 ** digits - 1, PID_T_MAX)
+        pid = rng.randrange(lo, hi + 1)
+        if rng.random() < 0.3:
+            pid = int(str(pid)[:-1] + "0") or pid                   # trailing zero: 120 / 12
+        if rng.random() < 0.2 and procs:
+            rel = related_ids(rng, procs[0])
+            pid = rng.choice(rel) if rel else pid                   # a PROCESS whose id is related to another's
+        if b.k.used(pid):
+            continue
+        ev = {"k": "spawn", "p": mk_proc(pid, b.tick(), foreign=rng.random() < 0.15)}
+        st = shape()
+        if st is not None:
+            ev["p"]["st"] = st
+        b.k.apply(ev)
+        b.h.append({"op": "kev", "ev": ev})
+        procs.append(pid)
+        pool |= set(related_ids(rng, pid))
+    if not procs:
+        b.populate(1)
+        procs = [p["pid"] for p in b.k.procs]
+    rel = sorted(pool - set(procs))
+    rng.shuffle(rel)
+    raws = ["Tgid:", "Tgid:\t", "Tgid:\t{tgid}a", "Tgid:\t0{tgid}", "Tgid:\t {tgid}", "Tgid: {tgid}", "Tgid:\t{tgid}\t7",
+            "Tgid:\t{tgid} kB", "Tgid:{tgid}", "Tgid:\tx{tgid}", "Tgid:\t{pid}{tgid}", "Tgid:\t\t{tgid}"]
+    raw_ids = set()
+    for tid in rel[:rng.randrange(2, 7)]:
+        ev = {"k": "thread", "t": {"tid": tid, "tgid": rng.choice(procs), "start": b.tick()}}
+        st = shape()
+        if texts and rng.random() < 0.35:
+            st = {"b": list(_STD_B), "a": list(_STD_A), "raw": rng.choice(raws)}
+            raw_ids.add(tid)
+        if st is not None:
+            ev["t"]["st"] = st
+        b.k.apply(ev)
+        b.h.append({"op": "kev", "ev": ev})
+    ids = procs + [t["tid"] for t in b.k.thrs]
+    absent = [x for x in rel if not b.k.used(x)]
+    asks = list(ids) + rng.sample(absent, min(len(absent), 3)) + [rng.choice(ids) + rng.choice([1, 10, 100])]
+    rng.shuffle(asks)
+    for n in asks:
+        txt, kernel_fmt = shadow_status(b.k, n)
+        lop = {"op": "linux_pid_exists", "n": n, "mid": []}
+        if txt is not None and b.k.used(n):
+            lop["text"] = txt.hex()
+            if not kernel_fmt:
+                lop["foreign_text"] = True
+        if n not in raw_ids:
+            b.h.append({"op": "pid_exists", "n": n})
+        if rng.random() < 0.8 or n in raw_ids:
+            b.h.append(lop)
+        if rng.random() < 0.2:
+            b.h.append({"op": "posix_pid_exists", "n": n})
+        t = b.k.find_thr(n) if b.k.find_proc(n) is None else None
+        task = b.k.find_proc(n) or t
+        if task is not None and n not in raw_ids and rng.random() < 0.5 and task.get("status", "ok") == "ok":
+            b.h.append({"op": "status_scan", "n": n, "tgid": n if t is None else t["tgid"],
+                        "st": task.get("st") or "std"})
+    b.h.append({"op": "pids"})
+    if not raw_ids and rng.random() < 0.5:
+        b.full()
+
+
+def exhaustive_tid_digits():
+    """EVERY ordered pair (thread-group id, thread id) over a set of numbers closed under the textual relations (prefix,
+    suffix, infix, extension, permutation, zero inside / at the end): one history per thread-group id, every other number a
+    thread of it, every number asked about through psutil.pid_exists and _pslinux.pid_exists (byte-level model fed with
+    the file's text), the layouts of the status file in rotation."""
+    S = [1, 2, 10, 12, 21, 23, 100, 102, 120, 121, 123, 234, 1234, 2341, 12345]
+    out = []
+    for i, tgid in enumerate(S):
+        k = SimKernel()
+        h = []
+        ev = {"k": "spawn", "p": mk_proc(tgid, 50)}
+        ev["p"]["st"] = SHAPE_NAMES[i % len(SHAPE_NAMES)]
+        k.apply(ev)
+        h.append({"op": "kev", "ev": ev})
+        for j, tid in enumerate(S):
+            if tid != tgid:
+                ev = {"k": "thread", "t": {"tid": tid, "tgid": tgid, "start": 60 + j, "st": SHAPE_NAMES[(i + j) % len(SHAPE_NAMES)]}}
+                k.apply(ev)
+                h.append({"op": "kev", "ev": ev})
+        for n in S:
+            h.append({"op": "pid_exists", "n": n})
+            h.append({"op": "linux_pid_exists", "n": n, "mid": [], "text": shadow_status(k, n)[0].hex()})
+        h.append({"op": "pids"})
+        out.append(h)
+    return out
+
+
 FAMILIES = ["static", "churn", "vanish_mid", "vanish_respawn", "reuse_flag", "clear", "attrs", "partial", "overlap",
-            "pid_exists", "mixed", "long", "pid_exists_platform", "attrs_all", "gone_same_tick", "inflight_flag"]
+            "pid_exists", "mixed", "long", "pid_exists_platform", "attrs_all", "gone_same_tick", "inflight_flag",
+            "tid_digits", "status_text"]
 
 
 def corpus():
@@ -1526,7 +1843,23 @@ def corpus():
     inflight = base + full(0) + [ev_exit(5), spawn(5, 999), {"op": "iter", "attrs": None}, {"op": "next", "g": 1, "mid": []},
                                  {"op": "is_running", "at": 5}, {"op": "cache_clear"}] + \
         [{"op": "next", "g": 1, "mid": []} for _ in range(3)] + full(2) + full(3) + full(4)
-    return [("corpus:inflight-flag-clear", inflight), ("corpus:gone-same-tick", gone), ("corpus:L19", l19), ("corpus:L4", l4), ("corpus:L5", l5), ("corpus:clear-suspended", clear),
+    # seeded round 5b: thread ids that are decimal prefixes / suffixes of their process's id (PID counter wrapped around)
+    def thr(tid, tgid, st=None):
+        t = {"tid": tid, "tgid": tgid, "start": 300 + tid % 7}
+        if st:
+            t["st"] = st
+        return {"op": "kev", "ev": {"k": "thread", "t": t}}
+    k = SimKernel()
+    digits = [spawn(1234, 201), spawn(77, 202), thr(123, 1234), thr(12, 1234, "real"), thr(234, 1234, "min"), thr(1235, 1234),
+              thr(78, 77), thr(7, 77, "name_digits"), thr(770, 77, "name_tgid")]
+    digits[0]["ev"]["p"]["st"] = "real"
+    for e in digits:
+        k.apply(e["ev"])
+    digits += [{"op": "pid_exists", "n": n} for n in (123, 12, 234, 1235, 1234, 78, 7, 770, 77, 1, 23, 34)] + \
+        [{"op": "linux_pid_exists", "n": n, "mid": [], "text": shadow_status(k, n)[0].hex()} for n in (123, 12, 234, 7, 770, 1234)] + \
+        [{"op": "status_scan", "n": 123, "tgid": 1234, "st": "std"}, {"op": "status_scan", "n": 12, "tgid": 1234, "st": "real"},
+         {"op": "pids"}] + full(0, 3)
+    return [("corpus:tid-decimal-prefix", digits), ("corpus:inflight-flag-clear", inflight), ("corpus:gone-same-tick", gone), ("corpus:L19", l19), ("corpus:L4", l4), ("corpus:L5", l5), ("corpus:clear-suspended", clear),
             ("corpus:ppid", ppid), ("corpus:vanish", vanish), ("corpus:thread", thread)]
 
 
@@ -1690,8 +2023,30 @@ def features(h, rows):
     f = set()
     started = set()
     susp = set()
+    shadow = SimKernel()
     for (o, io, mo, so) in rows:
         k = o["op"]
+        if k == "kev":
+            shadow.apply(o["ev"])
+        elif k in ("next", "linux_pid_exists"):
+            for ev in o["mid"]:
+                shadow.apply(ev)
+        if k in ("pid_exists", "linux_pid_exists", "status_scan") and isinstance(o.get("n"), int):
+            t = shadow.find_thr(o["n"]) if shadow.find_proc(o["n"]) is None else None
+            if t is not None:
+                f.add("tid_query")
+                f.add("tid_query:%s:%s" % (digit_relation(o["n"], t["tgid"]), io.get("v") if io.get("kind") in ("bool", "eq") else io.get("kind")))
+            for q in shadow.procs:
+                if q["pid"] != o["n"] and o["n"] > 0 and t is None and shadow.find_proc(o["n"]) is None \
+                        and digit_relation(o["n"], q["pid"]) in ("prefix", "suffix", "infix"):
+                    f.add("absent_id_inside_a_pid")
+            st = (shadow.find_proc(o["n"]) or t or {}).get("st")
+            if st is not None:
+                f.add("status_shape:%s" % (st if isinstance(st, str) else ("raw" if st.get("raw") is not None else "random")))
+            if k == "linux_pid_exists" and o.get("text") is not None:
+                f.add("linux_pid_exists_text")
+            if k == "status_scan":
+                f.add("status_scan")
         if k == "next":
             if o["mid"]:
                 f.add("mid_events")
@@ -1784,7 +2139,7 @@ def check_batch(ctx, impl, res, hists, tags, sample_idx=()):
         nontriv = bool(feats & {"same_object_again", "pid_got_new_object", "overlap", "mid_events", "info",
                                 "pid_exists_True", "pid_exists_huge", "clear", "is_running_False",
                                 "linux_pid_exists_window:True", "linux_pid_exists_window:False",
-                                "linux_pid_exists:True", "posix_pid_exists:True", "pid_exists_float:TypeError"})
+                                "linux_pid_exists:True", "posix_pid_exists:True", "pid_exists_float:TypeError", "tid_query"})
         sample = None
         if j in sample_idx:
             sample = {"family": tag, "history": h, "impl": [r[1] for r in rows]}
@@ -1955,7 +2310,7 @@ def correspond(ctx, res):
     impl = Impl(ctx)
     try:
         res.rule = ("histories of kernel events and pids/pid_exists/process_iter/next/close/cache_clear/"
-                    "is_running ops from 16 clause-directed families (PRNG from VERIF_SEED; process_iter called in every spelling of its signature), the lead witnesses, "
+                    "is_running ops from 18 clause-directed families (PRNG from VERIF_SEED; process_iter called in every spelling of its signature), the lead witnesses, "
                     "an exhaustive sweep of short macro-step words around one recycled PID, the complete "
                     "pid_exists table (every kind of id × every boundary argument) and byte-level directory "
                     "listings; non-trivial = an object is yielded again / a PID gets a new object / generators "
@@ -1975,7 +2330,7 @@ def correspond(ctx, res):
         for h in pid_exists_table():
             hists.append(h)
             tags.append("pid_exists_table")
-        n = ctx.n(720, 48000)
+        n = ctx.n(810, 54000)
         for i in range(n):
             fam = FAMILIES[i % len(FAMILIES)]
             hists.append(gen_history(ctx.rng, fam))
@@ -1987,6 +2342,10 @@ def correspond(ctx, res):
         for word, h in exhaustive_histories(maxlen):
             hists.append(h)
             tags.append("exhaustive")
+        for h in exhaustive_tid_digits():
+            hists.append(h)
+            tags.append("exhaustive_tid_digits")
+        n_digits = len(exhaustive_tid_digits())
         n_inflight = 0
         for word, h in exhaustive_inflight(maxlen):
             hists.append(h)
@@ -2003,7 +2362,10 @@ def correspond(ctx, res):
                           "pid_exists table; all %d words of length <= %d over {is_running on the stale object, cache_clear, advance / close the "
                           "generator in flight, recycle PID 5 again, a complete other iteration} in the window of a generator in flight "
                           "(PID 5 recycled before / after it started), each followed by the end of that generator and three complete "
-                          "iterations; the random families are samples" % (len(hists) - n_rand - n_inflight, maxlen, n_inflight, maxlen))
+                          "iterations; the random families are samples" % (len(hists) - n_rand - n_inflight - n_digits, maxlen, n_inflight, maxlen)
+                          + "; every ordered pair (thread-group id, thread id) over 15 numbers closed under decimal prefix / suffix / "
+                            "infix / extension / permutation, each id asked about through psutil.pid_exists and _pslinux.pid_exists, "
+                            "status-file layouts in rotation (%d histories)" % n_digits)
         total_lines += listing_cases(ctx, impl, res)
         total_lines += attrs_all_cases(ctx, impl, res)
         res.extra["driver_lines"] = total_lines
